@@ -767,6 +767,13 @@ func (c *EvalCtx) call(v *ECall) SV {
 		return SV{t: app(SReal, "xf-val", argT(0))}
 	case "pl":
 		return SV{t: ifacePl(argT(0))}
+	case "addrof":
+		// addrof(x.f): the address of a field as a value (e.g. of a mutex)
+		a := arg(0)
+		if a.addr == nil {
+			sfail("addrof needs a location")
+		}
+		return SV{t: c.x.materialize(c.st, Val{addr: a.addr})}
 	case "visited":
 		// visited(k): k was already produced by the (single) map range loop of this function
 		var names []string
